@@ -56,7 +56,8 @@ def strategy(tier: str) -> Any:
     hname = st.one_of(st.sampled_from([b'Subject', b'To', b'X-Vid', b'a b',
                                        b'"', b'\\', b'(', b')', b']', b'',
                                        b'\xc3\xa9', b'Date', b'From'
-                                       b'x' * 70]),
+                                       b'x' * 70, b'a\nb', b'x\r\ny',
+                                       b'n\x00l', b'{3}', b'a]b']),
                       st.text('abcXYZ-', min_size=1, max_size=6).map(
                           str.encode))
     return st.fixed_dictionaries({
